@@ -132,3 +132,110 @@ Section JoinLive.
   Qed.
 End JoinLive.
 Print Assumptions join_fair_resolves.
+
+(* ---- the same for try_join (and join again), with a smaller script invariant: a child that is still awaited has a Ready step ahead ---- *)
+Definition hasready (l: list step) : bool := existsb (fun st => match answer st with AReady _ => true | _ => false end) l.
+Section JoinFamLive.
+  Variables (tuple tryj : bool).
+  Variable scs : list (list step).
+  Let n := length scs.
+  Hypothesis Hready : forall i, i < n -> hasready (nth i scs []) = true.
+  Hypothesis Hnp : forall m st, In st (nth m scs []) -> answer st <> APanic.
+  Hypothesis Hn : 0 < n.
+
+  Definition P' (s: jst) (sc: list (list step)) : Prop :=
+    j_Q s /\ length (pst s) = n /\ (j_consumed s = false -> forall i, i < n -> nth i (pst s) PNone = PPending -> hasready (nth i sc []) = true).
+
+  Lemma P'_handle : forall s sc i stp sc', j_awaited s i = true -> i < j_slots s -> (stp, sc') = popped sc i ->
+      P' s sc -> P' (fst (fst (j_handle s i (answer stp)))) sc'.
+  Proof.
+    intros s sc i stp sc' Ha Hi Hpop (HQ & Hl & Hm).
+    pose proof (J9 s i (answer stp) HQ Ha Hi) as HQ'. destruct (aw_in_range s i Ha) as [Hi' Hpi]. unfold j_slots in Hi'.
+    assert (Hsc : forall j, j <> i -> nth j sc' [] = nth j sc []).
+    { intros j Hne. unfold popped in Hpop. destruct (nth i sc []); inversion Hpop; subst; auto. rewrite nth_upd_other by auto. reflexivity. }
+    assert (Hsi : j_consumed s = false -> (match answer stp with AReady _ => False | _ => True end) -> hasready (nth i sc' []) = true).
+    { intros Hc Hna. specialize (Hm Hc i ltac:(lia) Hpi). unfold popped in Hpop. destruct (nth i sc []) as [|x rest] eqn:E; [discriminate|].
+      inversion Hpop; subst stp sc'. rewrite nth_upd_same_sc by (rewrite E; discriminate).
+      cbn in Hm. destruct (answer x); try contradiction; cbn in Hm; exact Hm. }
+    split; [exact HQ'|]. pose proof (j_handle_cases s i (answer stp)) as X. cbn zeta in X.
+    destruct (answer stp) as [|[v|er]|v| |] eqn:Ea; rewrite X in *; cbn [fst].
+    - split; [exact Hl|]. intros Hc j Hj Hp. destruct (Nat.eq_dec j i) as [->|Hne]; [apply Hsi; auto|rewrite Hsc by exact Hne; apply Hm; auto].
+    - destruct (j_tup s && (pending s - 1 =? 0)); cbn [fst].
+      + unfold j_reset; cbn. rewrite map_length, upd_length. split; [exact Hl|]. intros; discriminate.
+      + cbn. rewrite upd_length. split; [exact Hl|]. intros Hc j Hj Hp. destruct (Nat.eq_dec j i) as [->|Hne].
+        * rewrite nth_upd_same in Hp by lia. discriminate.
+        * rewrite nth_upd_other in Hp by auto. rewrite Hsc by exact Hne. apply Hm; auto.
+    - cbn. rewrite upd_length. split; [exact Hl|]. intros; discriminate.
+    - split; [exact Hl|]. intros Hc j Hj Hp. destruct (Nat.eq_dec j i) as [->|Hne]; [apply Hsi; auto|rewrite Hsc by exact Hne; apply Hm; auto].
+    - split; [exact Hl|]. intros Hc j Hj Hp. destruct (Nat.eq_dec j i) as [->|Hne]; [apply Hsi; auto|rewrite Hsc by exact Hne; apply Hm; auto].
+    - split; [exact Hl|]. intros Hc j Hj Hp. destruct (Nat.eq_dec j i) as [->|Hne]; [apply Hsi; auto|rewrite Hsc by exact Hne; apply Hm; auto].
+  Qed.
+  Lemma P'_order s is s1 sc : j_order s = Some (is, s1) -> P' s sc -> P' s1 sc.
+  Proof. intros E H. destruct (j_order_some _ _ _ E) as [_ ->]. exact H. Qed.
+  Lemma P'_finish s sc : P' s sc -> P' (fst (j_finish s)) sc.
+  Proof.
+    intros (HQ & Hl & Hm). pose proof (J17 s HQ) as H17. unfold j_finish in *.
+    destruct (negb (j_consumed s) && negb (j_tup s) && (pending s =? 0)); cbn [fst] in *; [|split; [exact HQ|split; [exact Hl|exact Hm]]].
+    split; [exact H17|]. unfold j_reset; cbn. rewrite map_length. split; [exact Hl|]. intros; discriminate.
+  Qed.
+  Notation fstep := (step_op jst j_slots j_awaited (fun _ i => i) j_handle tuple tuple j_order (fun _ => None) j_pre_any j_finish (fun s => s) j_drop (fun _ => true) jmut).
+  Notation frun := (run_ops jst j_slots j_awaited (fun _ i => i) j_handle tuple tuple j_order (fun _ => None) j_pre_any j_finish (fun s => s) j_drop (fun _ => true) jmut).
+  Notation frounds := (rounds jst j_slots j_awaited (fun _ i => i) j_handle tuple tuple j_order (fun _ => None) j_pre_any j_finish (fun s => s) j_drop (fun _ => true) jmut).
+  Definition PW' (w: jW) := P' (cs _ w) (scripts _ w).
+  Lemma PW'_step w o : PW' w -> PW' (fstep w o).
+  Proof.
+    intros HP. destruct o as [| |c k| |m a sc]; cbn [step_op].
+    1,2: destruct (finished jst w || dropped jst w); [exact HP|];
+      apply (poll_P jst j_slots j_awaited (fun _ i => i) j_handle tuple tuple j_order (fun _ => None) j_pre_any j_finish (fun s => s) j_drop (fun _ => true) j_Q
+                 J1 J8 J10 J12 P' P'_handle P'_order P'_finish (fun _ _ H => H) (fun s sc H => proj1 H)); exact HP.
+    - destruct (fire_handle_pass jst j_slots (emit jst w [EO]) c k) as [Hc Hs]. unfold PW'. rewrite Hc, Hs. exact HP.
+    - destruct (dropped jst w); exact HP.
+    - destruct (dropped jst w); exact HP.
+  Qed.
+  Lemma PW'_run ops : forall w, PW' w -> PW' (frun w ops).
+  Proof. induction ops as [|o r IH]; intros w HP; cbn; auto. apply IH, PW'_step, HP. Qed.
+  Definition fw0 := mk_world {| j_try := tryj; j_tup := tuple; j_consumed := false; pending := length scs; items := repeat None (length scs); pst := repeat PPending (length scs) |} true (length scs) scs.
+  Lemma PW'_init : PW' fw0.
+  Proof.
+    unfold PW', P', fw0, mk_world; cbn. rewrite !repeat_length. split; [|split; [reflexivity|]].
+    - unfold j_Q; cbn [pending pst]. rewrite count_repeat_pending. reflexivity.
+    - intros _ i Hi _. apply Hready. exact Hi.
+  Qed.
+
+  (* join and try_join, slice and tuple variants: within [bound scs] rounds the wake-driven executor has been handed the result (what the result
+     is, is C04 / C05: the positional vector, or the first error) *)
+  Theorem joinfam_fair_returns : let w := frounds (bound scs) fw0 in
+    finished _ w = true /\ returned _ w /\ dropped _ w = false /\ exists ops, w = join_run tuple tryj scs ops.
+  Proof.
+    cbv zeta.
+    assert (X : finished _ (frounds (bound scs) fw0) = true /\ returned _ (frounds (bound scs) fw0) /\ dropped _ (frounds (bound scs) fw0) = false).
+    { apply (fair_executor_returns jst j_slots j_awaited (fun _ i => i) j_handle tuple tuple j_order (fun _ => None) j_pre_any j_finish (fun s => s) j_drop
+             (fun _ => true) j_Q J1 J2 J3 J4 J5 J6 J7 J8 J9 J10 J11 J12 J13 J14 J15 J16 J17 (fun _ => eq_refl) (fun _ _ _ => eq_refl) (fun _ H => H)
+             jmut jmut_inv (fun _ _ => eq_refl) j_abort_panic (TSj tuple) (USj tuple) (USj_cont tuple scs Hn) (TSj_order tuple) (USj_finish tuple scs Hn) (USj_endp tuple) (TSj_order_some tuple)).
+      - apply (join_init tuple).
+      - split; [reflexivity|]. split; [exact Hnp|].
+        unfold HT, N, j_slots, polled. cbn. rewrite !repeat_length. split; [reflexivity|]. split; [reflexivity|].
+        intros c Hc. rewrite !repeat_nth by exact Hc. split; [intros h []|discriminate].
+      - split; [reflexivity|]. split; [reflexivity|]. exact Hn.
+      - reflexivity.
+      - reflexivity.
+      - reflexivity.
+      - intros j. unfold rem, bound, fw0, mk_world. cbn [scripts].
+        eapply Nat.le_trans; [|apply Nat.le_max_r]. destruct (Nat.lt_ge_cases j (length scs)) as [L|G].
+        + pose proof (proj1 (list_max_le (map (@length step) scs) (list_max (map (@length step) scs))) (Nat.le_refl _)) as Hle.
+          rewrite Forall_forall in Hle. apply Hle. apply in_map. apply nth_In. exact L.
+        + rewrite nth_overflow by exact G. cbn. lia.
+      - unfold bound. apply Nat.le_max_l.
+      - intros r j Hj (_ & Hc & _) Ha.
+        destruct (rounds_is_run jst j_slots j_awaited (fun _ i => i) j_handle tuple tuple j_order (fun _ => None) j_pre_any j_finish (fun s => s) j_drop (fun _ => true) jmut r fw0) as [ops Hops].
+        unfold rem. pose proof (PW'_run ops fw0 PW'_init) as (_ & _ & Hm). rewrite <- Hops in Hm.
+        unfold N, j_slots in Hj. cbn in Hj. rewrite repeat_length in Hj.
+        destruct (aw_in_range _ _ Ha) as [_ Hp]. specialize (Hm Hc j Hj Hp).
+        destruct (nth j (scripts jst (frounds r fw0)) []); [discriminate|cbn; lia].
+      - intros s HQ HT. apply (TSj_some tuple); auto. }
+    destruct X as (A & B & C). split; [exact A|]. split; [exact B|]. split; [exact C|].
+    destruct (rounds_is_run jst j_slots j_awaited (fun _ i => i) j_handle tuple tuple j_order (fun _ => None) j_pre_any j_finish (fun s => s) j_drop (fun _ => true) jmut (bound scs) fw0) as [ops Hops].
+    exists ops. exact Hops.
+  Qed.
+End JoinFamLive.
+Print Assumptions joinfam_fair_returns.
